@@ -168,7 +168,8 @@ Inductive vop : Type :=
 | VSub (i j : nat) (k : nat)              (* slot i := Variant(k-th content item of slot j as element) *)
 | VSubMut (i : nat) (k : nat) (nm : bytes)(* k-th content item of slot i .toElement().type = nm *)
 | VElCopy (i j : nat)                     (* slot i := Variant(Element copy of slot j's element) via Element copy-construction *)
-| VDel (i : nat).                         (* slot i destroyed *)
+| VDel (i : nat)                          (* slot i destroyed *)
+| VSubAssign (i : nat) (k : nat) (j : nat). (* k-th content item of slot i .toElement() = slot j   (j <> i; see vstep) *)
 
 Definition store := list (option node).
 
@@ -230,6 +231,16 @@ Definition vstep (s : store) (o : vop) : store :=
                    | Some (N l c nm a ct) => sset s i (Some (N l c nm a ct))
                    | _ => s end
   | VDel i => sset s i None
+  | VSubAssign i k j =>
+    (* a content item assigned from another Variant - in particular from an ancestor or a copy of one.  j = i is NOT an
+       operation of this alphabet (it is the identity here and the harness does not perform it): the value would have
+       to contain a copy of itself as it was before, and the code stores a reference to the block inside the block - a
+       cycle (proposed open finding, checks/C16.py level_note) *)
+    if (i =? j)%nat then s else
+    match sget s i, sget s j with
+    | Some (N l c n0 a ct), Some y => if (k <? length ct)%nat then sset s i (Some (N l c n0 a (upd_nth k (fun _ => y) ct))) else s
+    | _, _ => s
+    end
   end.
 
 (* `Element& e = slot[i].toElement();` without a write: the value becomes an element if it was none; said
@@ -242,5 +253,5 @@ Definition touch_op (s : store) (i : nat) : vop :=
 Definition target (o : vop) : nat :=
   match o with
   | VNull i | VText i _ | VElem i _ | VCopy i _ | VAssign i _ | VSetText i _ | VName i _
-  | VAttr i _ _ | VChild i _ | VSub i _ _ | VSubMut i _ _ | VElCopy i _ | VDel i => i
+  | VAttr i _ _ | VChild i _ | VSub i _ _ | VSubMut i _ _ | VElCopy i _ | VDel i | VSubAssign i _ _ => i
   end.
